@@ -1,6 +1,7 @@
 package main
 
 import (
+	"runtime/debug"
 	"time"
 	"runtime/pprof"
 	"encoding/json"
@@ -49,6 +50,9 @@ func (e *Engine) runInits(c *Ctx) {
 }
 
 func main() {
+	// the term table is a large, long-lived heap: collect rarely (memory is plentiful), but stay below a soft limit
+	debug.SetGCPercent(800)
+	debug.SetMemoryLimit(24 << 30)
 	if len(os.Args) < 2 {
 		fmt.Println("usage: symgo check|one|replay|dev ...")
 		os.Exit(2)
@@ -142,6 +146,9 @@ func cmdDev(args []string) {
 			time.Sleep(time.Duration(*timeout) * time.Second)
 			pprof.StopCPUProfile()
 			f.Close()
+			hf, _ := os.Create(*prof + ".heap")
+			pprof.WriteHeapProfile(hf)
+			hf.Close()
 			fmt.Println("profile window over")
 			os.Exit(3)
 		}()
